@@ -188,6 +188,10 @@ func TestChild(t *testing.T) {
 			return
 		}
 	}
+	if caseID := fmt.Sprintf("child-%d/same-key-writers", b); sp.Case == "" || sp.Case == caseID {
+		wr.InFlight(caseID)
+		sameKeyScenario(wr, caseID, rand.New(rand.NewSource(sp.Seed*1000099+int64(b)*149)), sp.Tier == "thorough")
+	}
 	for k := 0; k < 4; k++ {
 		caseID := fmt.Sprintf("child-%d/stall-%d", b, k)
 		if sp.Case != "" && sp.Case != caseID {
